@@ -28,12 +28,15 @@ enum Sec {
     BadEnvelope,
     /// Valve: the first name / rule key is not valid UTF-8; Unreal 2: the real reply cut down to one byte
     BadText,
+    /// Unreal 2: the list is answered in two datagrams and the SECOND one has a valid header and an undecodable body
+    /// (Valve: as Malformed)
+    LaterDatagramBad,
 }
-const SECS: [Sec; 7] = [Sec::Valid, Sec::Silent, Sec::Malformed, Sec::ChallengeThenSilent, Sec::Overrun, Sec::BadEnvelope, Sec::BadText];
+const SECS: [Sec; 8] = [Sec::Valid, Sec::Silent, Sec::Malformed, Sec::ChallengeThenSilent, Sec::Overrun, Sec::BadEnvelope, Sec::BadText, Sec::LaterDatagramBad];
 
 impl Sec {
     /// a reply arrives but the format rejects it
-    fn malformed(self) -> bool { matches!(self, Sec::Malformed | Sec::Overrun | Sec::BadEnvelope | Sec::BadText) }
+    fn malformed(self) -> bool { matches!(self, Sec::Malformed | Sec::Overrun | Sec::BadEnvelope | Sec::BadText | Sec::LaterDatagramBad) }
     fn datagram(self, valve: bool, head: &[u8]) -> Vec<u8> {
         match (self, valve) {
             // (both clients are lenient about lists that stop early inside the body - rules replies are often cut by
@@ -64,6 +67,12 @@ impl Sec {
                 d
             }
             (Sec::BadText, false) => head[.. 1].to_vec(),
+            // 80 00 00 00 <kind> + a UCS-2 string announcing 5 characters with two bytes behind it
+            (Sec::LaterDatagramBad, false) => {
+                let mut d = head[.. head.len().min(5)].to_vec();
+                d.extend_from_slice(&[0x85, 0x41, 0x42]);
+                d
+            }
             _ => GARBAGE.to_vec(),
         }
     }
@@ -111,6 +120,7 @@ impl Policy for Sections {
             Sec::Valid => Pick::Head,
             Sec::Silent if n == 0 => Pick::Timeout { drop_all: true },
             // (the answer is what gets replaced, not a challenge that precedes it)
+            Sec::LaterDatagramBad if !self.valve => if n == 1 { Pick::Custom { data: Sec::LaterDatagramBad.datagram(false, &pt.queue[0]), consume: true } } else { Pick::Head },
             m if m.malformed() && n == self.answer_at() => Pick::Custom { data: m.datagram(self.valve, &pt.queue[0]), consume: true },
             Sec::ChallengeThenSilent if self.valve && n == self.cts_at => Pick::Timeout { drop_all: true },
             Sec::ChallengeThenSilent if !self.valve && n == 0 => Pick::Timeout { drop_all: true },
@@ -154,6 +164,7 @@ fn section_kind(sec: Sec) -> &'static str {
         Sec::Overrun => "malformed:overrun",
         Sec::BadEnvelope => "malformed:bad-envelope",
         Sec::BadText => "malformed:bad-text",
+        Sec::LaterDatagramBad => "malformed:second-of-two-datagrams",
         Sec::ChallengeThenSilent => "challenge-then-silent/unsendable",
     }
 }
@@ -311,6 +322,10 @@ impl Prop for C11 {
                         // two servers: the usual one, and one with bots only, which are listed but not counted (num_players 0):
                         // what the info reply says must not decide whether a section is gathered
                         for bots_only in [false, true] {
+                        // (a server announcing 0 players is not read beyond the first players datagram: the second one is never seen)
+                        if bots_only && so_p == Sec::LaterDatagramBad {
+                            continue;
+                        }
                         let mut st = u2_seed();
                         if bots_only {
                             for p in st.players.iter_mut() {
@@ -319,7 +334,8 @@ impl Prop for C11 {
                             st.num_players = 0;
                         }
                         // one datagram per list: stale fragments of a failed section are a delivery phenomenon (C08), not a toggle one
-                        let server = ru::U2Server { state: st.clone(), rule_packets: 1, player_packets: 1 };
+                        // (two datagrams per list where the second, last one is to be the bad one: nothing stale is left behind it)
+                        let server = ru::U2Server { state: st.clone(), rule_packets: if so_r == Sec::LaterDatagramBad { 2 } else { 1 }, player_packets: if so_p == Sec::LaterDatagramBad { 2 } else { 1 } };
                         let gs = unreal2::GatheringSettings { players, mutators_and_rules: rules };
                         // unit 1 = rules, unit 2 = players
                         let policy = Sections { valve: false, outcome: [Sec::Valid, so_r, so_p], cur: 0, recvs_in_unit: 0, cts_at: 1 };
